@@ -184,3 +184,50 @@ func zzH15_unquote_hex() {
 	zzCheckUnquote(body, "hex", 2, zzParam("quotings", 1, 4))
 	zzReach("end")
 }
+
+// ---------------------------------------------------------------------------
+// H15.3  The same round trip through the real scanner and parser:
+// ParseExpr(Quote(s, b)) is a Literal of the right kind whose Value is s,
+// whose Raw is the quoted text, positioned at 1:1.
+//
+//verif:unwind 300
+func zzH15_parse_quote() {
+	var s string
+	b := zzChoice("mode", 2) == 1
+	if zzChoice("shape", 2) == 0 {
+		n := zzChoice("n", zzParam("maxlen", 1, 2)+1)
+		s = zzString("s", n)
+	} else {
+		r := zzI32("r")
+		zzAssume(zzAnd(r >= 0x80, r <= 0x10FFFF))
+		zzAssume(zzNot(zzAnd(r >= 0xD800, r <= 0xDFFF)))
+		s = zzEncodeRune(r)
+		if zzParam("rune_bytes_mode", 0, 1) == 0 {
+			zzAssume(!b)
+		}
+	}
+	if !b {
+		zzAssume(zzValidUTF8(s))
+	}
+	q := Quote(s, b)
+	e, err := ParseExpr("q.star", q, 0)
+	zzAssert(err == nil, "C15.parse.accepted")
+	if err == nil {
+		lit, ok := e.(*Literal)
+		zzAssert(ok, "C15.parse.literal_node")
+		if ok {
+			want := STRING
+			if b {
+				want = BYTES
+			}
+			zzAssert(lit.Token == want, "C15.parse.kind")
+			v, isStr := lit.Value.(string)
+			zzAssert(isStr, "C15.parse.value_type")
+			zzAssert(v == s, "C15.parse.value")
+			zzAssert(lit.Raw == q, "C15.parse.raw")
+			zzAssert(zzAnd(lit.TokenPos.Line == 1, lit.TokenPos.Col == 1), "C15.parse.pos")
+			zzObserve("v", v)
+		}
+	}
+	zzReach("end")
+}
